@@ -1,0 +1,139 @@
+/*!
+Verification hooks.
+
+This module only exists when the crate is compiled with `--cfg emit_rs_emit_verif`. It lets a test harness:
+
+- park threads immediately before they acquire the channel's state lock ([`Hooks::point`]), so interleavings of critical sections can be chosen deterministically.
+- observe each critical section while the lock is still held ([`Hooks::event`] with a [`Snapshot`]), ordered by a single global sequence number.
+- scale the delays produced by the receiver's backoff ([`set_delay_scale`]).
+
+Without installed hooks every function here is a no-op.
+*/
+
+use std::{
+    sync::{
+        atomic::{AtomicU64, Ordering},
+        Arc, RwLock,
+    },
+    time::Duration,
+};
+
+use crate::{Channel, Shared, State};
+
+/**
+The lock-protected state of a channel, observed while the lock is held.
+*/
+#[derive(Debug, Clone, Copy, PartialEq, Eq)]
+pub struct Snapshot {
+    /// The number of items in the pending batch.
+    pub pending: usize,
+    /// Whether the channel is open.
+    pub is_open: bool,
+    /// Whether the receiver is processing a batch.
+    pub is_in_batch: bool,
+    /// The number of flush watchers attached to the pending batch.
+    pub on_flush: usize,
+    /// The number of take watchers attached to the pending batch.
+    pub on_take: usize,
+}
+
+/**
+An event observed in the channel.
+*/
+#[derive(Debug, Clone, Copy)]
+pub struct Event {
+    /// A global sequence number. For events carrying a snapshot it is assigned while the state lock is held.
+    pub seq: u64,
+    /// The kind of event.
+    pub kind: &'static str,
+    /// An identifier for the channel the event belongs to.
+    pub chan: usize,
+    /// The state of the channel, if the event was produced under the lock.
+    pub snapshot: Option<Snapshot>,
+    /// An event-specific argument.
+    pub a: usize,
+    /// An event-specific argument.
+    pub b: usize,
+}
+
+/**
+Callbacks installed by a harness.
+*/
+pub trait Hooks: Send + Sync {
+    /// Called immediately before a thread acquires a lock; may block the calling thread.
+    fn point(&self, site: &'static str);
+    /// Called for each observed event.
+    fn event(&self, event: Event);
+}
+
+static HOOKS: RwLock<Option<Arc<dyn Hooks>>> = RwLock::new(None);
+static SEQ: AtomicU64 = AtomicU64::new(1);
+static DELAY_SCALE_NANOS_PER_MILLI: AtomicU64 = AtomicU64::new(1_000_000);
+
+/**
+Install or remove the process-wide hooks.
+*/
+pub fn install(hooks: Option<Arc<dyn Hooks>>) {
+    *HOOKS.write().unwrap() = hooks;
+}
+
+/**
+Take the next global sequence number, so a harness can order its own events with the channel's.
+*/
+pub fn next_seq() -> u64 {
+    SEQ.fetch_add(1, Ordering::SeqCst)
+}
+
+/**
+Scale delays produced by the receiver: each millisecond becomes `nanos_per_milli` nanoseconds.
+*/
+pub fn set_delay_scale(nanos_per_milli: u64) {
+    DELAY_SCALE_NANOS_PER_MILLI.store(nanos_per_milli, Ordering::SeqCst);
+}
+
+pub(crate) fn scale_delay(delay: Duration) -> Duration {
+    let scale = DELAY_SCALE_NANOS_PER_MILLI.load(Ordering::SeqCst);
+
+    if scale == 1_000_000 {
+        delay
+    } else {
+        Duration::from_nanos((delay.as_nanos() as u64 / 1_000_000).saturating_mul(scale))
+    }
+}
+
+pub(crate) fn point(site: &'static str) {
+    let hooks = HOOKS.read().unwrap().clone();
+
+    if let Some(hooks) = hooks {
+        hooks.point(site);
+    }
+}
+
+pub(crate) fn event(kind: &'static str, chan: usize, snapshot: Option<Snapshot>, a: usize, b: usize) {
+    let hooks = HOOKS.read().unwrap().clone();
+
+    if let Some(hooks) = hooks {
+        hooks.event(Event {
+            seq: next_seq(),
+            kind,
+            chan,
+            snapshot,
+            a,
+            b,
+        });
+    }
+}
+
+pub(crate) fn chan<T>(shared: &Arc<Shared<T>>) -> usize {
+    Arc::as_ptr(shared) as *const () as usize
+}
+
+pub(crate) fn snapshot<T: Channel>(state: &State<T>) -> Snapshot {
+    Snapshot {
+        pending: state.next_batch.channel.len(),
+        is_open: state.is_open,
+        is_in_batch: state.is_in_batch,
+        on_flush: state.next_batch.watchers.on_flush.len(),
+        on_take: state.next_batch.watchers.on_take.len(),
+    }
+}
